@@ -74,12 +74,9 @@ fn one(id: String, seed: u64, bits: u8, rng: &mut SplitMix64, sink: &mut Sink, f
             }
         }
     }
-    // A stored free count beyond the number of clusters is treated like a missing one: `stats` would recount and the
-    // FS-info sector would legitimately be rewritten at unmount. Keep that out of the read-only session.
-    let free_bogus = built.fs_free.map_or(false, |f| f > built.geo.clusters);
-    if !free_bogus {
-        cx.step(Op::Stats);
-    }
+    // (a stored free count beyond the number of clusters is treated like a missing one: `stats` recounts and the
+    // FS-info sector is legitimately rewritten at unmount - the exception C13 names)
+    cx.step(Op::Stats);
     cx.step(Op::Status);
     cx.step(Op::LabelRoot);
     cx.step(Op::Label);
@@ -90,9 +87,6 @@ fn one(id: String, seed: u64, bits: u8, rng: &mut SplitMix64, sink: &mut Sink, f
         return;
     }
     // ---- a few mutations
-    if free_bogus {
-        cx.step(Op::Stats);
-    }
     let cs = built.geo.cs() as usize;
     let dirs: Vec<&(String, bool, usize)> = objs.iter().filter(|o| o.1).collect();
     let files: Vec<&(String, bool, usize)> = objs.iter().filter(|o| !o.1).collect();
